@@ -44,7 +44,7 @@ class Injector:
             raise EXC[cls](f"injected fault #{self.count} in {what}")
 
 
-def user_series(inst, inj, poison=(), copies=None):
+def user_series(inst, inj, poison=(), copies=None, symbolic=False):
     """The Hamiltonian as a lazily defined scalar BlockSeries (user callback)."""
     from pymablock.series import BlockSeries, zero
     from scipy import sparse
@@ -52,6 +52,11 @@ def user_series(inst, inj, poison=(), copies=None):
     k = inst["k"]
     terms = {(0,) * k: hermitian.h0_user(inst), **inst["terms"]}
     concrete = {}
+    if symbolic:
+        # the same lazily defined series with sympy (rational) matrices: the symbolic code path of
+        # block_diagonalize (operator detection, symbolic masks and Sylvester solver)
+        concrete = {n: hermitian.to_sympy(m) for n, m in terms.items()}
+        terms = {}
     for n, m in terms.items():
         a = hermitian.to_numpy(m, force_complex=inst["vtype"] == "numpy_complex")
         if inst["vtype"] == "sparse" or n == (0,) * k:
@@ -222,6 +227,8 @@ def build(inst, inj, *, custom_solver=False, poison=(), copies=None, shared=None
         H, concrete = algebra_series(inst, inj, poison=poison, copies=copies)
     elif input_kind == "data_series":
         H, concrete = data_series(inst)
+    elif input_kind == "lazy_sympy":
+        H, concrete = user_series(inst, inj, poison=poison, symbolic=True)
     else:
         H, concrete = user_series(inst, inj, poison=poison, copies=copies)
     kw = {}
@@ -277,6 +284,9 @@ def fingerprint(concrete, p):
         a = concrete[n]
         if a is zero or not hasattr(a, "shape"):
             fp.append([list(n), repr(a)])      # an entry that is not the caller's (sentinel / marker)
+            continue
+        if hasattr(a, "applyfunc"):            # sympy matrix
+            fp.append([list(n), [[common.red_sympy(a[i, j], p) for j in range(a.shape[1])] for i in range(a.shape[0])]])
             continue
         a = a.toarray() if sparse.issparse(a) else a
         # algebra input: keys are (i, j, *n) block cells; the Trace_Engine record only
